@@ -924,7 +924,7 @@ def case_script(case):
 
 
 def campaign(ctx):
-    n = {"quick": 130, "thorough": 2600}[ctx.tier]
+    n = {"quick": 200, "thorough": 2500}[ctx.tier]
     runner.run_hypothesis(ctx, case_strategy(ctx.tier), runner.guarded(run_case), n)
 
 
